@@ -274,6 +274,10 @@ def pi_theorem(quantities: dict[str, Any], registry: UnitRegistry | None = None)
 
     dimensions = list(dimensions)
 
+    if not dimensions:
+        # every quantity is dimensionless: each one is a group by itself
+        return [{name: 1.0} for name, _ in quant]
+
     # Calculate dimensionless  quantities
     matrix = [
         [dimensionality[dimension] for name, dimensionality in quant]
